@@ -1,11 +1,17 @@
 //! `tracker` engine (C05 part 1): the real SnapshotTracker, driven through snapshots, writes,
 //! gc and pullup of a real database, vs the Lean `Tracker` model; plus the implementation-only
 //! oracle "the GC watermark stays below every live snapshot instant".
-use fjall::{Database, KeyspaceCreateOptions};
+use fjall::{Database, KeyspaceCreateOptions, Readable};
+use std::collections::BTreeMap;
 use verif_harness::json::J;
 use verif_harness::*;
 
 struct Failure { kind: &'static str, detail: String }
+
+type Content = BTreeMap<Vec<u8>, Vec<u8>>;
+/// a live view: a snapshot (or a clone of one) with the content it must keep showing, or an
+/// iterator created from a snapshot with the items it still has to yield
+enum View { Snap(fjall::Snapshot, Content), It(Box<dyn Iterator<Item = fjall::Guard>>, Vec<(Vec<u8>, Vec<u8>)>) }
 
 fn run_case(seed: u64, lean: &mut Lean, samples: &mut Vec<J>, hist: &mut std::collections::BTreeMap<String, u64>) -> (Vec<Failure>, bool, u64) {
     let mut fails = vec![];
@@ -14,20 +20,21 @@ fn run_case(seed: u64, lean: &mut Lean, samples: &mut Vec<J>, hist: &mut std::co
     let db = Database::builder(scratch.join("db")).worker_threads_unchecked(0).open().unwrap();
     let tr = db.supervisor.snapshot_tracker.clone();
     let mut ops: Vec<String> = vec![];
-    let mut live: Vec<(u64, fjall::Snapshot)> = vec![];
-    let mut ks = None;
+    let mut live: Vec<(u64, View)> = vec![];
+    let mut ks: Option<fjall::Keyspace> = None;
+    let mut content: Content = Content::new();
     let mut shared_instant = false;
     let mut gc_while_live = false;
     let nops = r.range(4, 40);
     // half of the cases start with a snapshot of the fresh database (instant 0)
     let fresh_snapshot = r.chance(1, 2);
     for step in 0..nops {
-        let choice = if step == 0 && fresh_snapshot { 0 } else { r.below(10) };
+        let choice = if step == 0 && fresh_snapshot { 0 } else { r.below(16) };
         match choice {
             0 | 1 => {
                 let inst = db.visible_seqno();
                 if live.iter().any(|(i, _)| *i == inst) { shared_instant = true; }
-                live.push((inst, db.snapshot()));
+                live.push((inst, View::Snap(db.snapshot(), content.clone())));
                 ops.push("o".into());
                 *hist.entry("open".into()).or_insert(0) += 1;
             }
@@ -50,7 +57,9 @@ fn run_case(seed: u64, lean: &mut Lean, samples: &mut Vec<J>, hist: &mut std::co
                     *hist.entry("create-keyspace".into()).or_insert(0) += 1;
                 } else {
                     let s = db.seqno();
-                    ks.as_ref().unwrap().insert(format!("k{}", r.below(5)), "v").unwrap();
+                    let key = format!("k{}", r.below(5)).into_bytes();
+                    if r.chance(1, 5) { ks.as_ref().unwrap().remove(key.clone()).unwrap(); content.remove(&key); }
+                    else { let v = format!("v{step}").into_bytes(); ks.as_ref().unwrap().insert(key.clone(), v.clone()).unwrap(); content.insert(key, v); }
                     ops.push(format!("p{s}"));
                     *hist.entry("publish".into()).or_insert(0) += 1;
                 }
@@ -61,10 +70,78 @@ fn run_case(seed: u64, lean: &mut Lean, samples: &mut Vec<J>, hist: &mut std::co
                 ops.push("g".into());
                 *hist.entry("gc".into()).or_insert(0) += 1;
             }
-            _ => {
+            9 => {
                 fjall::verif::tracker_pullup(&db);
                 ops.push("u".into());
                 *hist.entry("pullup".into()).or_insert(0) += 1;
+            }
+            10 | 11 => {
+                // clone a live snapshot, or create an iterator from it (both register one more holder of its instant)
+                let snaps: Vec<usize> = live.iter().enumerate().filter(|(_, (_, v))| matches!(v, View::Snap(..))).map(|(i, _)| i).collect();
+                if let (Some(&i), Some(k)) = (snaps.first().map(|_| r.pick(&snaps)), ks.as_ref()) {
+                    let inst = live[i].0;
+                    let nv = match &live[i].1 {
+                        View::Snap(sn, c) => if r.chance(1, 2) { View::Snap(sn.clone(), c.clone()) } else { View::It(Box::new(sn.iter(k)), c.iter().map(|(a, b)| (a.clone(), b.clone())).collect()) },
+                        _ => unreachable!(),
+                    };
+                    *hist.entry(if matches!(nv, View::It(..)) { "iterator".to_string() } else { "clone".to_string() }).or_insert(0) += 1;
+                    live.push((inst, nv));
+                    ops.push(format!("c{inst}"));
+                    shared_instant = true;
+                }
+            }
+            12 | 13 => {
+                // seal + flush the memtable (rotation runs pullup + gc; the flush and the compactions it queues register versions)
+                if let Some(k) = ks.as_ref() {
+                    if k.rotate_memtable().unwrap_or(false) { ops.push("u".into()); ops.push("g".into()); if !live.is_empty() { gc_while_live = true; } }
+                    let before = db.visible_seqno();
+                    let mut guard = 0;
+                    while fjall::verif::queued_worker_messages(&db) > 0 && guard < 50 { guard += 1; let _ = fjall::verif::verif_worker_step(&db); }
+                    let after = db.visible_seqno();
+                    if after > before { ops.push(format!("s{after}")); }
+                    *hist.entry("flush".into()).or_insert(0) += 1;
+                }
+            }
+            _ => {
+                if let Some(k) = ks.as_ref() {
+                    let before = db.visible_seqno();
+                    let _ = k.major_compact();
+                    let after = db.visible_seqno();
+                    if after > before { ops.push(format!("s{after}")); }
+                    *hist.entry("major-compact".into()).or_insert(0) += 1;
+                }
+            }
+        }
+        // every live view keeps showing what it showed when it was created (and never panics)
+        if let Some(k) = ks.as_ref() {
+            for (inst, v) in live.iter_mut() {
+                let res = std::panic::catch_unwind(std::panic::AssertUnwindSafe(|| -> Result<(), String> {
+                    match v {
+                        View::Snap(sn, c) => {
+                            let key = format!("k{}", r.below(5)).into_bytes();
+                            let got = sn.get(k, &key).map_err(|e| format!("{e:?}"))?.map(|x| x.to_vec());
+                            if got != c.get(&key).cloned() { return Err(format!("get({}) = {:?}, at creation {:?}", String::from_utf8_lossy(&key), got.map(|x| String::from_utf8_lossy(&x).to_string()), c.get(&key).map(|x| String::from_utf8_lossy(x).to_string()))); }
+                            if r.chance(1, 4) {
+                                let scan: Vec<(Vec<u8>, Vec<u8>)> = sn.iter(k).map(|g| { let (a, b) = g.into_inner().unwrap(); (a.to_vec(), b.to_vec()) }).collect();
+                                let want: Vec<(Vec<u8>, Vec<u8>)> = c.iter().map(|(a, b)| (a.clone(), b.clone())).collect();
+                                if scan != want { return Err(format!("scan yields {} items, at creation {}", scan.len(), want.len())); }
+                            }
+                        }
+                        View::It(it, rest) => {
+                            if r.chance(1, 2) {
+                                let got = it.next().map(|g| { let (a, b) = g.into_inner().unwrap(); (a.to_vec(), b.to_vec()) });
+                                let want = if rest.is_empty() { None } else { Some(rest.remove(0)) };
+                                if got != want { return Err(format!("iterator yields {:?}, frozen content has {:?} next", got.map(|x| String::from_utf8_lossy(&x.0).to_string()), want.map(|x| String::from_utf8_lossy(&x.0).to_string()))); }
+                            }
+                        }
+                    }
+                    Ok(())
+                }));
+                match res {
+                    Ok(Ok(())) => {}
+                    Ok(Err(e)) => { fails.push(Failure { kind: "impl-vs-oracle", detail: format!("after ops {:?}: a live view with instant {inst} changed: {e}", ops) }); return (fails, false, 0); }
+                    Err(_) => { fails.push(Failure { kind: "impl-vs-oracle", detail: format!("after ops {:?}: using a live view with instant {inst} panicked", ops) }); return (fails, false, 0); }
+                }
             }
         }
         // implementation-only oracle after every step
@@ -84,7 +161,7 @@ fn run_case(seed: u64, lean: &mut Lean, samples: &mut Vec<J>, hist: &mut std::co
         }
         let real = format!("open={} wm={} visible={}", tr.open_snapshots(), wm, db.visible_seqno());
         let model = lean.ask(&format!("tr {}", ops.join(" ")));
-        if model != real {
+        if !no_model() && model != real {
             fails.push(Failure { kind: "model-vs-impl", detail: format!("after ops {:?}: model {model} vs real {real}", ops) });
             return (fails, false, 0);
         }
